@@ -44,6 +44,7 @@ import os
 import re
 import subprocess
 import threading
+import time
 
 import vlib
 
@@ -318,7 +319,7 @@ def _involute_case(ctx, shard, k):
 
 
 def _involute_shard(ctx, shard, seed, ncases, knobs, res):
-    """gen -> real code -> oracle facts for one shard (runs in a thread; TLC is run by the caller)."""
+    """gen -> real code -> oracle facts -> TLC for one shard (runs in a thread alongside the other jobs)."""
     try:
         cases = ctx.path("inv%d.cases.ndjson" % shard)
         raw = ctx.path("inv%d.raw.ndjson" % shard)
@@ -333,6 +334,8 @@ def _involute_shard(ctx, shard, seed, ncases, knobs, res):
         if r.returncode != 0:
             raise vlib.Broken("involute_oracle.py facts failed:\n" + r.stderr[-3000:])
         res[shard] = json.loads(r.stdout.strip().splitlines()[-1])
+        res[shard]["tlc"] = vlib.tlc("InvoluteTrace", "InvoluteTrace", workers=1, env={"TRACE": trace}, timeout=3000,
+                                     heap="3g")
     except Exception as ex:  # reported by the caller
         res[shard] = ex
 
@@ -401,10 +404,17 @@ def run(ctx):
                              "samples": []})
         return
 
+    # VERIF_C12_PARTS=design,quadric,algebra,involute restricts a run to some parts (development and
+    # binding demonstrations only; recorded in the evidence).  Default: everything.
+    parts = set(x for x in os.environ.get("VERIF_C12_PARTS", "design,quadric,algebra,involute").split(",") if x)
+
     # ---- 1. design check (in a thread, alongside the traces)
     mc = {}
 
     def design():
+        if "design" not in parts:
+            mc["r"] = None
+            return
         try:
             mc["r"] = vlib.tlc("SurfacesMC", "SurfacesMC" if q else _mc_cfg(ctx, 2), workers=4 if q else 6,
                                timeout=600 if q else 1800, heap="4g")
@@ -418,6 +428,8 @@ def run(ctx):
         inv_shards, inv_cases, inv_knobs = 3, 44, []
     else:
         inv_shards, inv_cases, inv_knobs = 8, 150, ["npts=30", "nrays=36"]
+    if "involute" not in parts:
+        inv_shards = 0
     inv_res = {}
     inv_threads = [threading.Thread(target=_involute_shard,
                                     args=(ctx, i, seed * 131 + i, inv_cases, inv_knobs, inv_res))
@@ -448,12 +460,16 @@ def run(ctx):
         tfc = 4
     for den in (1, 5, 13, 3, 7):
         jobs.append(("tf%d" % den, ["tf", seed + den, den, tfc]))
+    if "quadric" not in parts:
+        jobs = []
     # ---- 4. matrix utilities, transform algebra, signed permutations
-    jobs.append(("mat", ["mat", seed + 17, 60 if q else 600]))
-    jobs.append(("tfx", ["tfx", seed + 19, 12 if q else 150]))
-    jobs.append(("sperm", ["sperm"]))
+    if "algebra" in parts:
+        jobs.append(("mat", ["mat", seed + 17, 60 if q else 600]))
+        jobs.append(("tfx", ["tfx", seed + 19, 12 if q else 150]))
+        jobs.append(("sperm", ["sperm"]))
 
     tj = []
+    t_h = time.time()
     for name, argv in jobs:
         out = ctx.path(name + ".ndjson")
         if argv[0] == "exh":
@@ -467,8 +483,11 @@ def run(ctx):
         tj.append(dict(module="SurfacesTrace", cfg="SurfacesTrace", workers=1, env={"TRACE": out},
                        timeout=3000, heap="3g"))
 
+    vlib.log("C12 harness runs: %.1fs" % (time.time() - t_h))
     # ---- 3. trace validation, parallel shards
+    t_v = time.time()
     results = vlib.tlc_parallel(tj, maxpar=max(4, min(12, vlib.NCPU - 4)))
+    vlib.log("C12 SurfacesTrace validation of %d traces: %.1fs" % (len(tj), time.time() - t_v))
     cases = devs = 0
     cov = Coverage()
     dev_files = []
@@ -510,14 +529,14 @@ def run(ctx):
                       files=[sample_path] + dev_files[:2])
 
     # ---- involutes: trace validation of the oracle's facts
+    t_i = time.time()
     for t in inv_threads:
         t.join()
+    vlib.log("C12 involute gen/harness/oracle/TLC threads: waited another %.1fs" % (time.time() - t_i))
     for i in range(inv_shards):
         if isinstance(inv_res.get(i), Exception):
             raise inv_res[i]
-    inv_runs = vlib.tlc_parallel([dict(module="InvoluteTrace", cfg="InvoluteTrace", workers=1,
-                                       env={"TRACE": ctx.path("inv%d.trace.ndjson" % i)}, timeout=3000, heap="3g")
-                                  for i in range(inv_shards)], maxpar=4)
+    inv_runs = [inv_res[i].pop("tlc") for i in range(inv_shards)]
     inv_tot, inv_devs = {}, {}
     for i, r in enumerate(inv_runs):
         _involute_report(ctx, i, r, inv_tot, inv_devs)
@@ -530,14 +549,18 @@ def run(ctx):
         for k, v in inv_res[i].items():
             if isinstance(v, (int, float)):
                 oracle_tot[k] = oracle_tot.get(k, 0) + v
-    if inv_tot.get("cases", 0) == 0 or inv_tot.get("must", 0) == 0 or inv_tot.get("flips", 0) == 0:
+    if inv_shards and (inv_tot.get("cases", 0) == 0 or inv_tot.get("must", 0) == 0 or inv_tot.get("flips", 0) == 0):
         raise vlib.Broken("involute check is vacuous: %s" % inv_tot)
 
     # ---- design check result
+    t_d = time.time()
     th.join()
+    vlib.log("C12 design check SurfacesMC: waited another %.1fs" % (time.time() - t_d))
     if "ex" in mc:
         raise mc["ex"]
     r = mc["r"]
+    if r is None:
+        r = vlib.TlcResult(0, "", 0.0)
     if r.code != 0:
         if r.violated:
             ctx.violation("design check SurfacesMC failed (%s):\n%s"
@@ -562,7 +585,7 @@ def run(ctx):
                         "StepLaw Parity RationalRoots Denormalised Walk + ASSUMEs TypeForms GradIsDerivative "
                         "RotRoundTrip Count48" % (r.distinct, r.generated),
         "per_kind": cov.kind, "per_surface_type": cov.by_type,
-        "records": cov.records, "traces_validated_against_impl": len(jobs),
+        "records": cov.records, "traces_validated_against_impl": len(jobs) + inv_shards,
         "rays_reporting_0_1_2_distances": cov.rays_with_roots,
         "rays_from_on_surface_points": cov.on_surface_rays, "tangent_rays": cov.tangent_rays,
         "unbracketed_distances": cov.unbracketed,
@@ -573,7 +596,8 @@ def run(ctx):
         "signed_permutations_constructed": cov.sperm_ok, "signed_permutations_rejected": cov.sperm_rejected,
         "involute": dict(inv_tot, traces=inv_shards,
                          named_deviation_facts={k: v["n"] for k, v in inv_devs.items()},
-                         oracle=dict(oracle_tot, tolerances=inv_res[0].get("tolerances"))),
+                         oracle=dict(oracle_tot, tolerances=inv_res[0].get("tolerances") if inv_shards else None)),
+        "parts": sorted(parts),
         "oracle_decided": "involutes only: the crossing zones of every ray, the sense of the documented region, the "
                           "numerical gradient and the bracket-parity / negative-angle / swapped-angle scoping facts "
                           "come from tools/involute_oracle.py (independent implementation of the class "
@@ -586,6 +610,9 @@ def run(ctx):
                       "216 SignedPermutation sign/axis assignments, make_permutation and make_rotation for every "
                       "axis and quarter-turn count -8..8 / -6..9; seeded: matrices, transform pairs, involutes",
     })
+    if parts != {"design", "quadric", "algebra", "involute"}:
+        ctx.assumptions.append("RESTRICTED RUN (VERIF_C12_PARTS=%s): development / binding demonstration only"
+                               % ",".join(sorted(parts)))
     ctx.assumptions += [
         "integer parameters, lattice points and integer directions: all values (and the dyadic tan^2 of cones) are "
         "exactly representable; directions and general-plane normals are normalised by the harness for the C++ API",
